@@ -183,7 +183,11 @@ def search(seed, tier):
         xs = X[:n]
         terms = []
         for _ in range(rng.randint(1, 3)):
-            kind = rng.choice(['poly', 'sin', 'exp', 'mix', 'sum', 'affine'])
+            kind = rng.choice(['poly', 'sin', 'exp', 'mix', 'sum', 'affine', 'coord'])
+            if kind == 'coord':
+                if _ == 0 and rng.random() < 0.7:
+                    return rng.choice(list(xs))
+                kind = 'poly'
             lin = sum(rng.randint(-2, 2) * v for v in xs) + rng.randint(-1, 1)
             if kind == 'sum':      # dependence through the plain sum of some coordinates (autograd shares gradient buffers)
                 sub = [v for v in xs if rng.random() < 0.7] or list(xs)
@@ -194,9 +198,12 @@ def search(seed, tier):
                 continue
             mono = sp.Mul(*[v ** rng.randint(0, 3) for v in xs])
             terms.append({'poly': mono, 'sin': sp.sin(lin) * mono, 'exp': sp.exp(lin / 3), 'mix': sp.cos(lin) + mono}[kind] * rng.randint(-3, 3))
-        return sum(terms) + 0 * xs[0]
+        return sum(terms)
 
     def tfun(expr, n):
+        if expr in X[:n]:       # the field IS a coordinate column: hand over the leaf tensor itself
+            i = list(X[:n]).index(expr)
+            return lambda *ts: ts[i]
         f = sp.lambdify(X[:n], expr, modules=[{k: (lambda a, f=f: f(torch.as_tensor(a, dtype=torch.float64))) for k, f in (('sin', torch.sin), ('cos', torch.cos), ('exp', torch.exp))}])
         return lambda *ts: f(*ts) + 0 * ts[0]
 
@@ -238,7 +245,7 @@ def search(seed, tier):
                     cw = sp.diff(sum(sp.diff(f, v) for f, v in zip(us, X)), X[i]) - sum(sp.diff(us[i], v, 2) for v in X[:3])
                     cmp(f'curl_curl[{i}]', cc[i], cw, 3, pts, us)
         except Exception as e:   # an operator that raises on an admissible smooth field is a failing input too
-            found.append(dict(error=f'{type(e).__name__}: {e}', dimension=n, fields=[str(f) for f in ([u] + list(locals().get('us', [])))]))
+            found.append(dict(error=f'{type(e).__name__}: {e}', dimension=n, fields=[str(f) for f in ([locals().get('u')] + list(locals().get('us', [])))]))
         if len(found) >= 3:
             break
     return found
